@@ -1197,6 +1197,31 @@ pub fn check(scn: &ServerScn, log: &[Ev], sim: &Sim, node: u8) -> Vec<Violation>
         m.blocked_idles.extend(blocked);
     }
 
+    // ---- rare-condition probes (coverage only)
+    {
+        if m.incs.iter().any(|i| i.resp.iter().any(|r| r.2)) {
+            sim.count("probe.request_throttled");
+        }
+        if m.incs.iter().any(|i| i.tag != u64::MAX && i.dup_ignored) {
+            sim.count("probe.duplicate_while_in_flight_ignored");
+        }
+        if m.incs.iter().any(|i| i.tag != u64::MAX && i.deadline <= i.read_t) {
+            sim.count("probe.expired_on_arrival");
+        }
+        if m.incs.iter().any(|i| matches!((i.finish, i.cancel_read), (Some(f), Some(c)) if f < c)) {
+            sim.count("probe.cancel_after_handler_finished");
+        }
+        if m.incs.iter().any(|i| matches!((i.handler_start, i.cancel_read), (None, Some(_)))) {
+            sim.count("probe.cancel_before_handler_started");
+        }
+        if !m.unclean.is_empty() {
+            sim.count("probe.unclean_id_reuse");
+        }
+        if limit.is_some() && m.idles.iter().any(|(s, _)| stalled_at(*s) && samples.iter().rev().find(|x| x.0 < *s).map(|x| x.1 as usize >= limit.unwrap()).unwrap_or(false)) {
+            sim.count("probe.idle_at_limit_with_unready_sink");
+        }
+    }
+
     // ---- C08: handler count per read request
     for ix in 0..m.incs.len() {
         let i = &m.incs[ix];
